@@ -10,8 +10,10 @@ ASSUMPTIONS = [
     "Address values are modelled as (type byte, base58/base59-decoded bytes); that the C++ text form and these bytes "
     "determine each other (DecodeBase58(EncodeBase58 b) = b on valid addresses) belongs to property C18 and is only "
     "exercised, not proved, here; address validation/normalisation (base58/59 + sha256 checksum; the type is derived from the text) is the Section "
-    "variable addr_norm; theorems about codecs containing addresses carry the premise addr_norm_sound (result is a type "
-    "byte, at most VBK_ADDRESS_SIZE bytes, normalisation idempotent)",
+    "variable addr_norm; the general theorems about codecs containing addresses carry the premise addr_norm_sound (result is a type "
+    "byte, at most VBK_ADDRESS_SIZE bytes, normalisation idempotent); the premise is discharged for the concrete "
+    "addr_norm_c18 (C18 base58/base59/Address::fromString model) for every sha256 (C11_addr_norm_sound_discharged), and the "
+    "*_concrete theorems carry no premise; that the driver/C++ address path corresponds to addr_norm_c18 is tested, not proved",
     "MerklePath::subject (not serialised) and the memoised hash_ fields are outside the model value; the hash "
     "functions themselves (sha256, progpow) are abstract in the theorems; the real memoised paths are compared by the "
     "implementation's own oracle (memo sequences, VBK heights below 8000 so that one ethash epoch cache is reused)",
